@@ -55,6 +55,15 @@ def _render_calls(c, e, seen=None, depth=0):
     return out
 
 
+def _rewraps_update(c, fl):
+    """`Update { key: u.key, markdown: f(.., u.markdown) }` with `u` an Update bound by a pattern: the text was rendered where `u` was built (checked there); this literal keeps
+    text and key together."""
+    pk = c.vprov(fl.get("key")) if fl.get("key") is not None else set()
+    pm = c.vprov(fl.get("markdown")) | c.mentions(fl.get("markdown")) if fl.get("markdown") is not None else set()
+    from_update = lambda pv: any(a[0] in ("patpos", "pat") and "Update" in str(a[1]) for a in pv)
+    return ("field", "key") in pk and ("field", "markdown") in pm and from_update(pk) and (from_update(pm) or ("field", "markdown") in pm)
+
+
 def rule_r1(facts, rep, rid="C15-R1"):
     n = 0
     for f in facts.body_fns():
@@ -72,6 +81,9 @@ def rule_r1(facts, rep, rid="C15-R1"):
                 key = "%s|update|%d" % (f.def_, counts)
                 counts += 1
                 n += 1
+                if not renders and _rewraps_update(c, fl):
+                    rep.ok(rid, key, "forwards an already rendered Update (its own `markdown`, same `key`)", loc(f, x), nontrivial=False)
+                    continue
                 if not renders:
                     rep.violation(rid, key, "cannot find the rendering call that produced Update.markdown (`%s`)" % fb.show(fl.get("markdown"))[:60], loc(f, x))
                     continue
